@@ -25,11 +25,12 @@ QuickPlan ==
         E("relation", 3, 4, 3, 0, 500), E("relation", 4, 5, 3, 0, 500) >>
 
 ThoroughPlan ==
-     Lens("way", 1, 4, 3, 0) \o Lens("way", 2, 4, 3, 0) \o Lens("way", 3, 4, 3, 0)
+     Lens("way", 1, 4, 3, 0) \o Lens("way", 2, 4, 3, 0) \o Lens("way", 3, 3, 3, 0) \o << E("way", 3, 4, 2, 0, 0) >>
   \o Lens("way", 2, 3, 3, 1) \o Lens("way", 2, 3, 3, 2)
-  \o Lens("relation", 1, 3, 3, 0) \o Lens("relation", 2, 3, 3, 0) \o Lens("relation", 3, 3, 3, 0)
-  \o << E("way", 4, 5, 4, 0, 20000), E("way", 4, 5, 3, 0, 10000), E("way", 4, 5, 3, 2, 5000),
-        E("relation", 4, 5, 4, 0, 20000), E("relation", 3, 4, 3, 0, 10000) >>
+  \o Lens("relation", 1, 3, 3, 0) \o Lens("relation", 2, 3, 3, 0) \o Lens("relation", 3, 2, 3, 0)
+  \o << E("relation", 3, 3, 2, 0, 0) >>
+  \o << E("way", 3, 4, 3, 0, 10000), E("way", 4, 5, 4, 0, 10000), E("way", 4, 5, 3, 0, 5000), E("way", 4, 5, 3, 2, 3000),
+        E("relation", 4, 5, 4, 0, 10000), E("relation", 3, 4, 3, 0, 5000) >>
 
 CONSTANT Plan
 
